@@ -48,6 +48,7 @@
 #include <fstream>
 #include <istream>
 #include <limits>
+#include <sstream>
 #include <stdexcept>
 #include <string>
 #include <sys/stat.h>
@@ -185,7 +186,7 @@ struct World
 
   void op_stream(sim::Op const &op)
   {
-    unsigned const which = static_cast<unsigned>(op.getu("f") % 14);
+    unsigned const which = static_cast<unsigned>(op.getu("f") % 15);
     sim::Rng r(op.getu("vs"));
     std::size_t const len = op.getu("len") % 48;
     std::string text;
@@ -220,6 +221,8 @@ struct World
       sb.visible(op.getu("trunc") % (text.size() + 1));
     if (op.get("noseek") != 0)
       sb.seekable(false);
+    if (op.get("av") != 0)
+      sb.avail_hint(true);
     std::istream is(&sb);
     bool const exc = op.get("exc") != 0;
     if (exc)
@@ -290,6 +293,44 @@ struct World
       });
       if (failure)
         ctx.probe("parse_failure_reported");
+      break;
+    }
+    case 14:
+    {
+      // streams that are in a failed or unusual state before the call: a file stream whose open
+      // failed or that was never opened, an input stream on an output-only string buffer, a
+      // drained buffer that answers in_avail() with -1
+      unsigned const variant = static_cast<unsigned>(op.getu("cnt") % 4);
+      how = call(n, allow, [&] {
+        if (variant == 0)
+        {
+          std::ifstream f(g_dir + "/missing");
+          (void)fcppt::io::stream_to_string(f);
+          std::wifstream wf(g_dir + "/missing");
+          (void)fcppt::io::stream_to_string(wf);
+        }
+        else if (variant == 1)
+        {
+          std::ifstream f;
+          (void)fcppt::io::stream_to_string(f);
+          (void)fcppt::io::read_chars(f, 4);
+        }
+        else if (variant == 2)
+        {
+          std::ostringstream out;
+          out << "text";
+          std::istream in(out.rdbuf());
+          (void)fcppt::io::stream_to_string(in);
+        }
+        else
+        {
+          sb.avail_hint(true);
+          (void)fcppt::io::stream_to_string(is); // drains the buffer
+          is.clear();
+          (void)fcppt::io::stream_to_string(is); // in_avail() is -1 now
+        }
+      });
+      ctx.probe("stream_in_unusual_state");
       break;
     }
     case 12:
@@ -549,7 +590,7 @@ void warmup()
   // error categories) are not attributed to a later run's leak check
   sim::Plan p;
   p.property = prop::id;
-  for (unsigned f = 0; f < 14; ++f)
+  for (unsigned f = 0; f < 15; ++f)
     p.ops.push_back(sim::Op("stream").set("f", static_cast<long>(f)).set("len", 12).set("num", 1).set("vs", 1).set("cnt", 4));
   for (unsigned f = 0; f < 4; ++f)
     p.ops.push_back(sim::Op("facet").set("f", static_cast<long>(f)).set("len", 5).set("vs", 1));
@@ -592,7 +633,9 @@ void generate(sim::Rng &rng, sim::Plan &p, bool)
     long const vs = static_cast<long>(rng.below(1000000000));
     if (kind < 5)
     {
-      op = sim::Op("stream").set("f", static_cast<long>(rng.below(14))).set("vs", vs).set("len", static_cast<long>(rng.below(48))).set("chunk", static_cast<long>(rng.below(9))).set("cnt", static_cast<long>(rng.below(64))).set("num", static_cast<long>(rng.below(2)));
+      op = sim::Op("stream").set("f", static_cast<long>(rng.below(15))).set("vs", vs).set("len", static_cast<long>(rng.below(48))).set("chunk", static_cast<long>(rng.below(9))).set("cnt", static_cast<long>(rng.below(64))).set("num", static_cast<long>(rng.below(2)));
+      if (rng.chance(1, 3))
+        op.set("av", 1);
       if (faulty)
       {
         unsigned const f = static_cast<unsigned>(rng.below(7));
